@@ -12,11 +12,14 @@ def _obs(h, ret):
     return f"{ret} {cnt} | {ints(ps)} | {ints(h.pos[x] for x in ps)} | {ints(h.color)} | {ints(cost)}"
 
 
+BOOST = int(os.environ.get("VERIF_BOOST", "1"))
+
+
 def run(rng, tier, res=None):
     load_opfython()
     from opfython.core.heap import Heap
     res = res or Result("heap")
-    ncases = 1500 if tier == "quick" else 30000
+    ncases = (1500 * BOOST) if tier == "quick" else 30000
     lines, obs, metas = [], [], []
     for case in range(ncases):
         size = rng.choice([1, 2, 3, 3, 4, 5, 6, 7, 8, 10, 12])
@@ -173,5 +176,49 @@ def run(rng, tier, res=None):
         res.add_case(line, nontrivial=(n_ops >= 3 and size >= 2))
         if case < 2:
             res.samples.append({"input": line, "impl": obs[-1][:400]})
+    # ---- corpus: fixed histories (witnesses of past seeded changes), run on every check ----
+    try:
+        import json as _json
+        corpus = _json.load(open(os.path.join(VERIF, "corpus", "heap.json")))["cases"]
+    except Exception:
+        corpus = []
+    for cs in corpus:
+        size, is_max = cs["size"], cs["max"]
+        h = Heap(size, "max" if is_max else "min")
+        toks, segs, shadow = [], [], {}
+        bad = None
+        try:
+            for op in cs["ops"]:
+                if op[0] == "ins":
+                    _, x, c = op
+                    h.cost[x] = c; ret = h.insert(x); toks += [3, x, c]
+                    if ret:
+                        shadow[x] = c
+                    segs.append(_obs(h, 1 if ret else 0))
+                elif op[0] == "upd":
+                    _, x, c = op
+                    if h.color[x] != 2:
+                        shadow[x] = c
+                    h.update(x, c); toks += [2, x, c]; segs.append(_obs(h, 0))
+                else:
+                    ret = h.remove(); toks += [1]
+                    if ret is False:
+                        if shadow:
+                            bad = "remove failed on a non-empty heap"
+                        segs.append(_obs(h, -1))
+                    else:
+                        best = (max if is_max else min)(shadow.values()) if shadow else None
+                        if ret not in shadow or shadow[ret] != best:
+                            bad = f"remove returned {ret!r} (cost {shadow.get(ret)}), extremal queued cost is {best}"
+                        shadow.pop(ret, None)
+                        segs.append(_obs(h, ret if isinstance(ret, int) and 0 <= ret < size else -2))
+        except Exception as ex:
+            bad = f"{type(ex).__name__} raised"
+        line = f"heap {size} {1 if is_max else 0} {TOPH} {len(segs)} {ints(toks)}"
+        if bad:
+            res.violations.append({"property": "C05", "what": "corpus history: " + bad, "replay": {"stream": "heap", "line": line, "corpus": cs}})
+        else:
+            lines.append(line); obs.append(" ; ".join(segs)); metas.append({"corpus": True})
+        res.add_case(line, nontrivial=True); res.hit("corpus_history")
     compare(res, lines, obs, metas)
     return res
